@@ -49,6 +49,7 @@ def _loc(lc):
 class Adapter(EnvAdapter):
     name = "BinPack"
     props = ("C01", "C03", "C04", "C05", "C06", "C08", "C09", "C10", "C11", "C12")
+    gen_heavy = {'r654': (40, 300), 'r457_int': (40, 300)}
     probe_cap = 40
     state_overrides = {"container": _space, "ems": _space, "items": _item, "items_location": _loc}
     obs_overrides = {"ems": _space, "items": _item}
